@@ -228,7 +228,21 @@ static std::string hash_step(const std::vector<std::string>& w) {
   return "H1 " + vh::hex_u64(h);
 }
 
+// raw mode (L2 tie): entries in the sketch's own iteration order (= slot order of the table)
+static std::string raw_step(const std::vector<std::string>& w) {
+  std::string r = step(w);
+  if (r.rfind("T ", 0) != 0) return r;
+  const std::string& op = w[0];
+  if (op != "new" && op != "upd" && op != "trim" && op != "reset") return "bad-op";
+  Obj& o = vh::at(objs, atoi(w[1].c_str()));
+  std::ostringstream os;
+  os << "W " << o.upd->get_theta64() << " " << (o.upd->is_empty() ? 1 : 0) << " " << o.upd->get_num_retained() << " raw";
+  for (auto h : *o.upd) os << " " << h;
+  return os.str();
+}
+
 int main(int argc, char** argv) {
+  if (argc > 1 && std::string(argv[1]) == "raw") return vh::run_loop(raw_step);
   if (argc > 1 && std::string(argv[1]) == "hash") return vh::run_loop(hash_step);
   return vh::run_loop(step);
 }
